@@ -1,6 +1,7 @@
 package harness
 
 import (
+	"pgregory.net/rapid"
 	"fmt"
 	"sort"
 	"testing"
@@ -164,6 +165,25 @@ func checkC06(t *testing.T, sc BatchSc) Verdict {
 	return judgeC06(&sc, x, br, fail)
 }
 
+// checkC06Again: the same batch node object is run a second time, untouched, with another item
+// list (e.g. a batch node inside a loop); the second run is held to C06 like any run.
+func checkC06Again(t *testing.T, sc BatchSc) Verdict {
+	if sc.Second == nil {
+		return checkC06(t, sc)
+	}
+	x, eff, br, fail := runBatchAgain(t, &sc)
+	v := judgeC06(eff, x, br, fail)
+	if v.Violation != "" {
+		v.Violation = fmt.Sprintf("second run of the same node object (first run: %d items, this run: %d): %s", sc.n(), eff.n(), v.Violation)
+		v.Fingerprint += ":rerun"
+	}
+	v.Classes = append(v.Classes, "second-run")
+	if eff.n() < sc.n() {
+		v.Classes = append(v.Classes, "second-run-shorter")
+	}
+	return v
+}
+
 func modeContinue(m int) int {
 	if m == 2 {
 		return 1
@@ -257,6 +277,15 @@ func TestC06(t *testing.T) {
 	rapidPart(r, "rand-ungated", r.pick(1500, 25000), g2.gen, checkC06)
 	// the same guarantees while a cancellation strikes (scenarios of C11's generator)
 	rapidPart(r, "rand-cancelled", r.pick(1500, 25000), genC11, checkC06)
+	// the same node object run twice, untouched, with two different item lists
+	g3 := batchGen{MinN: 0, MaxN: 24, MaxC: 6, Modes: []int{0, 1, 1}, MaxBudget: 2, PFail: 250, PResErr: 60, Fb: true, Gated: 1, MaxSched: 40, PrepForms: []int{PFResults}}
+	rapidPart(r, "rand-rerun", r.pick(1500, 25000), func(rt *rapid.T) BatchSc {
+		b := g3.gen(rt)
+		b.PrepErr, b.PostErr = 0, 0
+		s := g3.gen(rt)
+		b.Second = &s
+		return b
+	}, checkC06Again)
 }
 
 // c06Sharded enumerates the n=10,c=5 space: the first two release choices select the shard.
@@ -303,6 +332,9 @@ func c06Sharded(r *Run, base BatchSc) {
 	}
 }
 
-func init() { registerReplay("C06", checkC06) }
+func init() {
+	registerReplay("C06", checkC06)
+	registerReplaySub("C06", "rand-rerun", checkC06Again)
+}
 
 var _ flyt.Action
